@@ -5,16 +5,17 @@
 # Used while a long run that rebuilds from /repo is in progress.  Remove the three directories when done
 # (git -C /repo worktree remove --force /tmp/seedrepo; rm -rf /tmp/seedharness /tmp/seedtarget).
 patch="$(readlink -f "$1")"; shift
-SR=/tmp/seedrepo; SH=/tmp/seedharness; ST=/tmp/seedtarget
+X="${SEED_SUFFIX:-}"   # a second instance can run side by side with SEED_SUFFIX=2
+SR=/tmp/seedrepo$X; SH=/tmp/seedharness$X; ST=/tmp/seedtarget$X
 export CARGO_NET_OFFLINE=true RUST_BACKTRACE=0 CARGO_TERM_COLOR=never
 head=$(git -C /repo rev-parse HEAD)
 [ -d "$SR" ] || git -C /repo worktree add -q --detach "$SR" HEAD || exit 2
 git -C "$SR" checkout -q -- . ; git -C "$SR" checkout -q --detach "$head" || exit 2
 mkdir -p "$SH" "$ST"
 rsync -a --delete --exclude target --exclude fuzz /verif/harness/cgv/ "$SH/"
-sed -i 's#path = "/repo"#path = "/tmp/seedrepo"#' "$SH/Cargo.toml"
+sed -i "s#path = \"/repo\"#path = \"$SR\"#" "$SH/Cargo.toml"
 git -C "$SR" apply "$patch" || { echo "patch does not apply"; exit 2; }
-trap 'git -C /tmp/seedrepo checkout -q -- .' EXIT
+trap "git -C $SR checkout -q -- ." EXIT
 (cd "$SH" && CARGO_TARGET_DIR="$ST/harness" cargo build --release --offline -q 2>"$ST/build.log") || { echo "BUILD FAILED (harness vs changed tree)"; tail -5 "$ST/build.log"; exit 2; }
 cargo build --release --offline -q --manifest-path "$SR/Cargo.toml" --features verif --bin complgen --target-dir "$ST/repo" 2>>"$ST/build.log" || { echo "BUILD FAILED (binary)"; exit 2; }
 for id in "$@"; do
